@@ -1,6 +1,18 @@
 package main
 
-// S3: structural proof rules (no SMT).
+// S3: structural proof rules (no SMT). Each rule is a sound syntactic sufficient condition; the evidence
+// labels them backend "structural".
+
+import (
+	"bytes"
+	"fmt"
+	"go/ast"
+	"go/printer"
+	"go/token"
+	"go/types"
+	"sort"
+	"strings"
+)
 
 func runStructural(w *World, rule string) []OblResult {
 	if f, ok := structuralRules[rule]; ok {
@@ -19,3 +31,565 @@ func runBounded(w *World, name string, seed int64) map[string]any {
 }
 
 var boundedChecks = map[string]func(w *World, seed int64) map[string]any{}
+
+func structResult(name, text string, problems []string) OblResult {
+	r := OblResult{Name: name, Kind: "structural", Text: text, Backend: "structural", Status: "proved"}
+	if len(problems) > 0 {
+		sort.Strings(problems)
+		r.Status = "refuted"
+		r.Raw = strings.Join(problems, "; ")
+		r.Model = strings.Join(problems, "\n")
+	}
+	return r
+}
+
+// ---------------------------------------------------------------------------------------
+// CONST: template constancy. Every argument of every P call reachable from the named emitter is a
+// compile-time constant (or one of the allowed parameters). If it holds, the instance extracted from the
+// fixed schema IS every instance of the emitted file.
+
+func (w *World) methodsOf(pkgShort string) map[string]*FuncInfo {
+	out := map[string]*FuncInfo{}
+	pkg := w.ByName[pkgShort]
+	if pkg == nil {
+		return out
+	}
+	for _, fi := range w.Funcs {
+		if fi.Obj.Pkg() == pkg {
+			out[fi.Obj.Name()] = fi
+		}
+	}
+	return out
+}
+
+func (w *World) constancy(pkgShort, root string, allowedIdents map[string]bool, skip map[string]bool) (nCalls int, problems []string) {
+	fns := w.methodsOf(pkgShort)
+	seen := map[string]bool{}
+	var visit func(name string)
+	visit = func(name string) {
+		if seen[name] || skip[name] {
+			return
+		}
+		seen[name] = true
+		fi := fns[name]
+		if fi == nil || fi.Decl.Body == nil {
+			problems = append(problems, "emitter "+name+" not found")
+			return
+		}
+		info := fi.Pkg.TypesInfo
+		ast.Inspect(fi.Decl.Body, func(n ast.Node) bool {
+			call, ok := n.(*ast.CallExpr)
+			if !ok {
+				return true
+			}
+			sel, ok := call.Fun.(*ast.SelectorExpr)
+			if !ok {
+				return true
+			}
+			if sel.Sel.Name == "P" {
+				if t := info.TypeOf(sel.X); t != nil && strings.Contains(t.String(), "GeneratedFile") {
+					nCalls++
+					for _, a := range call.Args {
+						if tv, ok := info.Types[a]; ok && tv.Value != nil {
+							continue
+						}
+						if id, ok := a.(*ast.Ident); ok && allowedIdents[id.Name] {
+							continue
+						}
+						var b bytes.Buffer
+						printer.Fprint(&b, w.Fset, a)
+						problems = append(problems, fmt.Sprintf("%s: P argument %s is not constant (%s)", name, b.String(), w.pos(a.Pos())))
+					}
+					return true
+				}
+			}
+			// calls to other emitter methods of the generator
+			if s := info.Selections[sel]; s != nil {
+				if fn, ok := s.Obj().(*types.Func); ok && fn.Pkg() == fi.Obj.Pkg() {
+					visit(fn.Name())
+				}
+			}
+			return true
+		})
+		// any control flow that depends on the schema makes the template schema-dependent
+		ast.Inspect(fi.Decl.Body, func(n ast.Node) bool {
+			switch n.(type) {
+			case *ast.IfStmt, *ast.ForStmt, *ast.RangeStmt, *ast.SwitchStmt:
+				if name != root || !isErrCheck(n) {
+					problems = append(problems, fmt.Sprintf("%s: control flow inside a constant template (%s)", name, w.pos(n.Pos())))
+				}
+			}
+			return true
+		})
+	}
+	visit(root)
+	return
+}
+
+func isErrCheck(n ast.Node) bool {
+	ifs, ok := n.(*ast.IfStmt)
+	if !ok {
+		return false
+	}
+	if be, ok := ifs.Cond.(*ast.BinaryExpr); ok {
+		if id, ok := be.Y.(*ast.Ident); ok && id.Name == "nil" {
+			return true
+		}
+	}
+	return false
+}
+
+func init() {
+	structuralRules["const.binding"] = func(w *World) []OblResult {
+		n, probs := w.constancy("httpgen", "generateBindingFile", nil, map[string]bool{"writeHeader": true})
+		return []OblResult{structResult("CONST.http_binding", fmt.Sprintf("every argument of the %d P calls reachable from generateBindingFile is a constant and no emitter below it branches: the extracted *_http_binding.pb.go is the file for every schema (header lines aside)", n), probs)}
+	}
+	structuralRules["const.config"] = func(w *World) []OblResult {
+		n, probs := w.constancy("httpgen", "generateConfigFile", nil, map[string]bool{"writeHeader": true})
+		return []OblResult{structResult("CONST.http_config", fmt.Sprintf("every argument of the %d P calls reachable from generateConfigFile is a constant", n), probs)}
+	}
+	structuralRules["const.clienthelpers"] = func(w *World) []OblResult {
+		var out []OblResult
+		for _, root := range []string{"generateMarshalRequestMethod", "generateHandleErrorResponseMethod", "generateUnmarshalResponseMethod"} {
+			n, probs := w.constancy("clientgen", root, map[string]bool{"lowerName": true}, nil)
+			out = append(out, structResult("CONST.client."+root, fmt.Sprintf("the %d P calls of %s print constants and the receiver name only", n, root), probs))
+		}
+		return out
+	}
+}
+
+// ---------------------------------------------------------------------------------------
+// C14: congruence of the duplicated codec generators.
+
+func normalizedFuncText(w *World, fd *ast.FuncDecl, rename map[string]string) string {
+	var b bytes.Buffer
+	// print without comments
+	cfg := printer.Config{Mode: printer.RawFormat}
+	cfg.Fprint(&b, token.NewFileSet(), stripComments(fd))
+	s := b.String()
+	for from, to := range rename {
+		s = strings.ReplaceAll(s, from, to)
+	}
+	return s
+}
+
+func stripComments(fd *ast.FuncDecl) *ast.FuncDecl {
+	c := *fd
+	c.Doc = nil
+	return &c
+}
+
+var c14Files = []string{"encoding.go", "enum_encoding.go", "nullable.go", "empty_behavior.go", "timestamp_format.go", "bytes_encoding.go", "flatten.go", "oneof_discriminator.go"}
+
+func (w *World) funcsByFile(pkgShort string) map[string]map[string]*FuncInfo {
+	out := map[string]map[string]*FuncInfo{}
+	pkg := w.ByName[pkgShort]
+	for _, fi := range w.Funcs {
+		if fi.Obj.Pkg() != pkg {
+			continue
+		}
+		file := w.Fset.Position(fi.Decl.Pos()).Filename
+		base := file[strings.LastIndex(file, "/")+1:]
+		if out[base] == nil {
+			out[base] = map[string]*FuncInfo{}
+		}
+		key := fi.Obj.Name()
+		if sig := fi.Obj.Type().(*types.Signature); sig.Recv() != nil {
+			key = "(Generator)." + key
+		}
+		out[base][key] = fi
+	}
+	return out
+}
+
+func init() {
+	structuralRules["c14.congruence"] = func(w *World) []OblResult {
+		hf, cf := w.funcsByFile("httpgen"), w.funcsByFile("clientgen")
+		rename := map[string]string{"writeEncodingHeader": "writeHeader"}
+		var out []OblResult
+		pairs := 0
+		for _, file := range c14Files {
+			var probs []string
+			names := map[string]bool{}
+			for k := range hf[file] {
+				names[k] = true
+			}
+			for k := range cf[file] {
+				names[k] = true
+			}
+			for name := range names {
+				a, b := hf[file][name], cf[file][name]
+				nm := name
+				if a == nil {
+					// the client names its header writer differently
+					if name == "(Generator).writeEncodingHeader" {
+						continue
+					}
+					probs = append(probs, "only in clientgen: "+nm)
+					continue
+				}
+				if b == nil {
+					probs = append(probs, "only in httpgen: "+nm)
+					continue
+				}
+				pairs++
+				ta, tb := normalizedFuncText(w, a.Decl, nil), normalizedFuncText(w, b.Decl, rename)
+				if ta != tb {
+					probs = append(probs, fmt.Sprintf("%s differs between the two packages (%s vs %s): %s", nm, w.pos(a.Decl.Pos()), w.pos(b.Decl.Pos()), firstDiff(ta, tb)))
+				}
+			}
+			out = append(out, structResult("C14.equiv."+file, "every function of internal/httpgen/"+file+" has a token-identical twin (modulo comments and the name of the header writer) in internal/clientgen/"+file+"; callees are the shared annotations package or twins themselves, so both emit the same text for the same descriptor", probs))
+		}
+		// the header writers print the same lines except for the generator name
+		var hprobs []string
+		ha := hf["generator.go"]["(Generator).writeHeader"]
+		var cb *FuncInfo
+		for _, m := range cf {
+			if f := m["(Generator).writeEncodingHeader"]; f != nil {
+				cb = f
+			}
+		}
+		if ha == nil || cb == nil {
+			hprobs = append(hprobs, "header writer not found")
+		} else {
+			ta := strings.ReplaceAll(normalizedFuncText(w, ha.Decl, nil), "protoc-gen-go-http", "GENERATOR")
+			tb := strings.ReplaceAll(normalizedFuncText(w, cb.Decl, rename), "protoc-gen-go-client", "GENERATOR")
+			if ta != tb {
+				hprobs = append(hprobs, "header writers differ beyond the generator name: "+firstDiff(ta, tb))
+			}
+		}
+		out = append(out, structResult("C14.header", "the two header writers print the same lines apart from the generator name", hprobs))
+		_ = pairs
+		return out
+	}
+}
+
+func firstDiff(a, b string) string {
+	la, lb := strings.Split(a, "\n"), strings.Split(b, "\n")
+	for i := 0; i < len(la) && i < len(lb); i++ {
+		if strings.TrimSpace(la[i]) != strings.TrimSpace(lb[i]) {
+			return fmt.Sprintf("line %d: %q vs %q", i+1, strings.TrimSpace(la[i]), strings.TrimSpace(lb[i]))
+		}
+	}
+	return fmt.Sprintf("length %d vs %d lines", len(la), len(lb))
+}
+
+// ---------------------------------------------------------------------------------------
+// C15: purity sweep and map-range inventory of the generator packages.
+
+var generatorPkgs = []string{"annotations", "httpgen", "clientgen", "tsclientgen", "tsservergen", "tscommon", "openapiv3"}
+
+func init() {
+	structuralRules["c15.maprange"] = func(w *World) []OblResult {
+		// every range-over-map in the generator packages must be one of the contracted ones
+		allowed := map[string]bool{"annotations.CombineHeaders": true, "tscommon.MessageSet.OrderedEnums": true}
+		var probs []string
+		found := map[string]bool{}
+		for _, short := range generatorPkgs {
+			pkg := w.ByName[short]
+			for _, fi := range w.Funcs {
+				if fi.Obj.Pkg() != pkg || fi.Decl.Body == nil {
+					continue
+				}
+				info := fi.Pkg.TypesInfo
+				ast.Inspect(fi.Decl.Body, func(n ast.Node) bool {
+					rs, ok := n.(*ast.RangeStmt)
+					if !ok {
+						return true
+					}
+					if t := info.TypeOf(rs.X); t != nil {
+						if _, isMap := t.Underlying().(*types.Map); isMap {
+							key := shortKey(fi.Obj)
+							found[key] = true
+							if !allowed[key] {
+								probs = append(probs, fmt.Sprintf("range over a map in %s (%s) has no order-independence contract", key, w.pos(rs.Pos())))
+							}
+						}
+					}
+					return true
+				})
+			}
+		}
+		return []OblResult{structResult("C15.maprange.inventory", "the only range-over-map loops in the generator packages are the contracted ones (CombineHeaders, OrderedEnums), whose results are sorted afterwards", probs)}
+	}
+	structuralRules["c15.pure"] = func(w *World) []OblResult {
+		// no call to time, rand, os.Getenv/Environ/Hostname, no write to package-level variables
+		var probs []string
+		for _, short := range append(append([]string{}, generatorPkgs...), "main") {
+			for _, fi := range w.Funcs {
+				if fi.Decl.Body == nil || fi.Obj.Pkg() == nil {
+					continue
+				}
+				path := fi.Obj.Pkg().Path()
+				if short == "main" {
+					if !strings.HasPrefix(path, modPath+"/cmd/") {
+						continue
+					}
+				} else if w.ByName[short] != fi.Obj.Pkg() {
+					continue
+				}
+				info := fi.Pkg.TypesInfo
+				ast.Inspect(fi.Decl.Body, func(n ast.Node) bool {
+					switch x := n.(type) {
+					case *ast.CallExpr:
+						var fn *types.Func
+						switch f := x.Fun.(type) {
+						case *ast.SelectorExpr:
+							fn, _ = info.Uses[f.Sel].(*types.Func)
+						case *ast.Ident:
+							fn, _ = info.Uses[f].(*types.Func)
+						}
+						if fn != nil && fn.Pkg() != nil {
+							p := fn.Pkg().Path()
+							bad := p == "time" && (fn.Name() == "Now" || fn.Name() == "Since") || p == "math/rand" || p == "math/rand/v2" || p == "crypto/rand" ||
+								p == "os" && (fn.Name() == "Getenv" || fn.Name() == "Environ" || fn.Name() == "Hostname" || fn.Name() == "Getpid" || fn.Name() == "LookupEnv" || fn.Name() == "ReadFile" || fn.Name() == "ReadDir")
+							if bad {
+								probs = append(probs, fmt.Sprintf("%s calls %s.%s (%s)", shortKey(fi.Obj), p, fn.Name(), w.pos(x.Pos())))
+							}
+						}
+					case *ast.GoStmt:
+						probs = append(probs, fmt.Sprintf("%s starts a goroutine (%s)", shortKey(fi.Obj), w.pos(x.Pos())))
+					case *ast.AssignStmt:
+						for _, l := range x.Lhs {
+							if id, ok := l.(*ast.Ident); ok {
+								if v, ok := info.Uses[id].(*types.Var); ok && v.Pkg() != nil && v.Parent() == v.Pkg().Scope() {
+									probs = append(probs, fmt.Sprintf("%s writes package-level variable %s (%s)", shortKey(fi.Obj), v.Name(), w.pos(x.Pos())))
+								}
+							}
+						}
+					}
+					return true
+				})
+			}
+		}
+		return []OblResult{structResult("C15.pure", "no function of the generator packages or plugin mains reads the clock, randomness, the environment or the file system, starts a goroutine, or writes a package-level variable: output is a function of the request", uniq(probs))}
+	}
+	structuralRules["c15.nostate"] = func(w *World) []OblResult {
+		// generator structs keep no cross-file state: the only field written after construction is httpgen.Generator.globalUnwrap (in Generate)
+		allowed := map[string]bool{"httpgen.Generator.globalUnwrap@httpgen.Generator.Generate": true}
+		var probs []string
+		for _, short := range []string{"httpgen", "clientgen", "tsclientgen", "tsservergen"} {
+			pkg := w.ByName[short]
+			for _, fi := range w.Funcs {
+				if fi.Obj.Pkg() != pkg || fi.Decl.Body == nil {
+					continue
+				}
+				info := fi.Pkg.TypesInfo
+				ast.Inspect(fi.Decl.Body, func(n ast.Node) bool {
+					as, ok := n.(*ast.AssignStmt)
+					if !ok {
+						return true
+					}
+					for _, l := range as.Lhs {
+						sel, ok := l.(*ast.SelectorExpr)
+						if !ok {
+							continue
+						}
+						t := info.TypeOf(sel.X)
+						if t == nil {
+							continue
+						}
+						if p, ok := t.(*types.Pointer); ok {
+							if nt, ok := types.Unalias(p.Elem()).(*types.Named); ok && nt.Obj().Name() == "Generator" && nt.Obj().Pkg() == pkg {
+								key := short + ".Generator." + sel.Sel.Name + "@" + shortKey(fi.Obj)
+								if !allowed[key] {
+									probs = append(probs, fmt.Sprintf("%s assigns Generator.%s (%s)", shortKey(fi.Obj), sel.Sel.Name, w.pos(as.Pos())))
+								}
+							}
+						}
+					}
+					return true
+				})
+			}
+		}
+		return []OblResult{structResult("C15.perfile.nostate", "generator objects carry no state from one file to the next: the only field assigned after construction is httpgen's global unwrap table (whose content per message is proved to be GetUnwrapField of that message)", probs)}
+	}
+}
+
+// ---------------------------------------------------------------------------------------
+// C17: ownership discipline of the emitted runtime (extracted packages).
+
+func init() {
+	structuralRules["emitted.c17.globals"] = func(w *World) []OblResult {
+		var probs []string
+		if w.Emitted == nil {
+			return []OblResult{structResult("C17.globals", "", []string{"emitted package not loaded"})}
+		}
+		for _, pkg := range []*types.Package{w.Emitted.Types, w.EmittedClient.Types} {
+			for _, fi := range w.Funcs {
+				if fi.Obj.Pkg() != pkg || fi.Decl.Body == nil {
+					continue
+				}
+				if strings.HasPrefix(fi.Obj.Name(), "file_") || fi.Obj.Name() == "init" {
+					continue // protoc-gen-go's own registration code
+				}
+				info := fi.Pkg.TypesInfo
+				// writes to package-level variables are allowed only inside the function literal passed to validatorOnce.Do
+				var onceLits []*ast.FuncLit
+				ast.Inspect(fi.Decl.Body, func(n ast.Node) bool {
+					if call, ok := n.(*ast.CallExpr); ok {
+						if sel, ok := call.Fun.(*ast.SelectorExpr); ok && sel.Sel.Name == "Do" {
+							if t := info.TypeOf(sel.X); t != nil && strings.HasSuffix(t.String(), "sync.Once") && len(call.Args) == 1 {
+								if fl, ok := call.Args[0].(*ast.FuncLit); ok {
+									onceLits = append(onceLits, fl)
+								}
+							}
+						}
+					}
+					return true
+				})
+				inOnce := func(pos token.Pos) bool {
+					for _, fl := range onceLits {
+						if fl.Pos() <= pos && pos <= fl.End() {
+							return true
+						}
+					}
+					return false
+				}
+				ast.Inspect(fi.Decl.Body, func(n ast.Node) bool {
+					switch x := n.(type) {
+					case *ast.AssignStmt:
+						for _, l := range x.Lhs {
+							root := l
+							for {
+								switch r := root.(type) {
+								case *ast.IndexExpr:
+									root = r.X
+									continue
+								case *ast.SelectorExpr:
+									if _, isPkgVar := info.Uses[r.Sel].(*types.Var); isPkgVar {
+										if id, ok := r.X.(*ast.Ident); ok {
+											if _, isPkg := info.Uses[id].(*types.PkgName); isPkg {
+												root = r.Sel
+											}
+										}
+									}
+								}
+								break
+							}
+							if id, ok := root.(*ast.Ident); ok {
+								if v, ok := info.Uses[id].(*types.Var); ok && v.Pkg() != nil && v.Parent() == v.Pkg().Scope() && !inOnce(x.Pos()) {
+									probs = append(probs, fmt.Sprintf("%s writes package-level variable %s outside sync.Once (%s)", fi.Obj.Name(), v.Name(), w.pos(x.Pos())))
+								}
+							}
+						}
+					case *ast.IncDecStmt:
+						if id, ok := x.X.(*ast.Ident); ok {
+							if v, ok := info.Uses[id].(*types.Var); ok && v.Pkg() != nil && v.Parent() == v.Pkg().Scope() {
+								probs = append(probs, fmt.Sprintf("%s modifies package-level variable %s (%s)", fi.Obj.Name(), v.Name(), w.pos(x.Pos())))
+							}
+						}
+					}
+					return true
+				})
+				// reads of validator/validatorErr must come after validatorOnce.Do in the same function
+				ast.Inspect(fi.Decl.Body, func(n ast.Node) bool {
+					id, ok := n.(*ast.Ident)
+					if !ok || (id.Name != "validator" && id.Name != "validatorErr") {
+						return true
+					}
+					v, ok := info.Uses[id].(*types.Var)
+					if !ok || v.Parent() != v.Pkg().Scope() {
+						return true
+					}
+					if inOnce(id.Pos()) {
+						return true
+					}
+					after := false
+					for _, fl := range onceLits {
+						if fl.End() < id.Pos() {
+							after = true
+						}
+					}
+					if !after {
+						probs = append(probs, fmt.Sprintf("%s reads %s without a preceding validatorOnce.Do (%s)", fi.Obj.Name(), id.Name, w.pos(id.Pos())))
+					}
+					return true
+				})
+			}
+		}
+		return []OblResult{structResult("C17.globals", "package-level variables of the emitted server and client are written only inside the function passed to sync.Once.Do and the validator singleton is read only after that call; every other package-level variable is never written after initialisation", uniq(probs))}
+	}
+	structuralRules["emitted.c17.clientframe"] = func(w *World) []OblResult {
+		var probs []string
+		if w.EmittedClient == nil {
+			return []OblResult{structResult("C17.client.frame", "", []string{"emitted client not loaded"})}
+		}
+		pkg := w.EmittedClient
+		for _, fi := range w.Funcs {
+			if fi.Obj.Pkg() != pkg.Types || fi.Decl.Body == nil {
+				continue
+			}
+			info := pkg.TypesInfo
+			sig := fi.Obj.Type().(*types.Signature)
+			isClientMethod := sig.Recv() != nil && strings.HasSuffix(sig.Recv().Type().String(), "Client")
+			isCtor := strings.HasPrefix(fi.Obj.Name(), "New") && strings.HasSuffix(fi.Obj.Name(), "Client")
+			parents := map[ast.Node]ast.Node{}
+			var stack []ast.Node
+			ast.Inspect(fi.Decl.Body, func(n ast.Node) bool {
+				if n == nil {
+					stack = stack[:len(stack)-1]
+					return true
+				}
+				if len(stack) > 0 {
+					parents[n] = stack[len(stack)-1]
+				}
+				stack = append(stack, n)
+				return true
+			})
+			ast.Inspect(fi.Decl.Body, func(n ast.Node) bool {
+				sel, ok := n.(*ast.SelectorExpr)
+				if !ok {
+					return true
+				}
+				v, ok := info.Uses[sel.Sel].(*types.Var)
+				if !ok || !v.IsField() {
+					return true
+				}
+				// fields of the client struct
+				recvT := info.TypeOf(sel.X)
+				if recvT == nil || !strings.HasSuffix(strings.TrimPrefix(recvT.String(), "*"), "Client") {
+					return true
+				}
+				par := parents[sel]
+				switch p := par.(type) {
+				case *ast.AssignStmt:
+					for _, l := range p.Lhs {
+						if l == sel && !isCtor && isClientMethod {
+							probs = append(probs, fmt.Sprintf("client method %s assigns c.%s (%s)", fi.Obj.Name(), sel.Sel.Name, w.pos(sel.Pos())))
+						}
+					}
+				case *ast.IndexExpr:
+					// c.defaultHeaders[k] = v outside construction
+					if gp, ok := parents[p].(*ast.AssignStmt); ok && isClientMethod {
+						for _, l := range gp.Lhs {
+							if l == p {
+								probs = append(probs, fmt.Sprintf("client method %s writes into c.%s (%s)", fi.Obj.Name(), sel.Sel.Name, w.pos(sel.Pos())))
+							}
+						}
+					}
+				}
+				// a reference-typed field (map/slice/pointer) may not escape into another object or call, except as range operand / plain read
+				if _, isMap := v.Type().Underlying().(*types.Map); isMap && isClientMethod {
+					switch p := par.(type) {
+					case *ast.RangeStmt:
+						if p.X != sel {
+							probs = append(probs, fmt.Sprintf("client method %s: c.%s used as range variable (%s)", fi.Obj.Name(), sel.Sel.Name, w.pos(sel.Pos())))
+						}
+					case *ast.IndexExpr:
+						// read c.m[k]
+					case *ast.CallExpr:
+						if id, ok := p.Fun.(*ast.Ident); ok && id.Name == "len" {
+							break
+						}
+						probs = append(probs, fmt.Sprintf("client method %s passes the shared map c.%s to a call (%s)", fi.Obj.Name(), sel.Sel.Name, w.pos(sel.Pos())))
+					default:
+						probs = append(probs, fmt.Sprintf("client method %s lets the shared map c.%s escape (%T at %s)", fi.Obj.Name(), sel.Sel.Name, par, w.pos(sel.Pos())))
+					}
+				}
+				return true
+			})
+		}
+		return []OblResult{structResult("C17.client.frame", "an emitted client method assigns no field of the client and the shared defaultHeaders map is only ranged over or indexed for reading: per-call options can reach call-local state only", uniq(probs))}
+	}
+}
